@@ -59,12 +59,13 @@ Accession(s) == SubSeq(s, 1, Len(s) - 2)
 IdsOf(rs) == {rs[i].id : i \in DOMAIN rs}
 HasDuplicates(rs) == \E i, j \in DOMAIN rs : i < j /\ rs[i].id = rs[j].id
 
+(* a number appended by the de-duplication ("contig7_0") hides the contig number written in the id *)
 RECURSIVE Dedup(_, _, _, _)
 Dedup(rs, i, taken, acc) ==
     IF i > Len(rs) THEN acc
     ELSE IF rs[i].id \in taken
          THEN LET new == Unique(rs[i].id, taken)
-              IN  Dedup(rs, i + 1, taken \cup {new}, Append(acc, [rs[i] EXCEPT !.id = new, !.orig = rs[i].id]))
+              IN  Dedup(rs, i + 1, taken \cup {new}, Append(acc, [rs[i] EXCEPT !.id = new, !.orig = rs[i].id, !.no = 0]))
          ELSE Dedup(rs, i + 1, taken \cup {rs[i].id}, Append(acc, rs[i]))
 Stage1(rs) == IF HasDuplicates(rs) THEN Dedup(rs, 1, {}, <<>>) ELSE rs
 
